@@ -240,6 +240,17 @@ def run_case(ctx, name, params):
         vrng.install_numpy(params["seed"] % 2 ** 31)
         g = params["gen"]
         N = r.randint(1, 25)
+        if g == "custom" and r.random() < 0.2:
+            N = 0                      # an empty sweep is a sweep: nothing is evaluated
+            ctx.count("empty_sweeps")
+        # designs the user has put on the problem for later (not evaluated, not produced by the generator): a sweep leaves them alone
+        prep = []
+        if r.random() < 0.35:
+            for _ in range(r.randint(1, 4)):
+                pi_ = Individual([r.uniform(lb, ub) for lb, ub in bxs])
+                prep.append((pi_, list(pi_.vector)))
+                p.individuals.append(pi_)
+            ctx.count("sweeps_on_a_problem_holding_prepared_designs")
         if g == "custom":
             gobj = operators.CustomGenerator(p.parameters)
             vs = [[r.uniform(lb, ub) for lb, ub in bxs] for _ in range(N)]
@@ -286,7 +297,12 @@ def run_case(ctx, name, params):
             ctx.violation("sweep/generate_calls", "generator consulted %d times" % len(produced), {"generator": g})
             return
         exp = produced[0]
-        got = [list(map(float, i.vector)) for i in p.individuals]
+        for pi_, v0_ in prep:
+            if pi_.state != Individual.State.EMPTY or list(pi_.costs) or list(pi_.vector) != v0_:
+                ctx.violation("sweep/foreign_design_touched", "a sweep evaluated or modified a design of the problem that its generator did not "
+                              "produce", {"generator": g, "designs_of_the_generator": len(exp), "state": str(pi_.state), "costs": list(pi_.costs)})
+                return
+        got = [list(map(float, i.vector)) for i in p.individuals[len(prep):]]
         called = [list(map(float, c.vector)) for c in p.calls]
         wit = lambda: {"generator": g, "designs": exp[:5], "recorded": got[:5], "called": called[:5]}
         if got != exp:
@@ -295,12 +311,12 @@ def run_case(ctx, name, params):
         if called != exp:
             ctx.violation("sweep/evaluated_designs", "the objective was not called exactly once per generator design, in order", wit())
             return
-        for ind, c in zip(p.individuals, p.calls):
+        for ind, c in zip(p.individuals[len(prep):], p.calls):
             if not check_fields(ctx, ind, c, signs, m, "sweep"):
                 return
         ctx.nontrivial(("s", g, params["seed"]))
         ctx.count("cases")
-        ctx.sample({"generator": g, "designs": len(exp), "first": exp[0]}, "sweep")
+        ctx.sample({"generator": g, "designs": len(exp), "first": exp[0] if exp else None}, "sweep")
     elif name in ("scipy", "nlopt"):
         from artap.operators import Evaluator
         n = r.randint(1, 3)
